@@ -48,6 +48,7 @@ import (
 	"reflect"
 	"sort"
 	"strings"
+	"unsafe"
 
 	p "example.com/c17m/p"
 )
@@ -64,6 +65,26 @@ func (r *rng) next() uint64 {
 	return z ^ (z >> 31)
 }
 func (r *rng) n(k int) int { return int(r.next() % uint64(k)) }
+
+// fld: field i of the struct v, readable and writable also when its name is not exported (this program lives outside
+// package p; a field such as hits or _seen is as much part of a value as an exported one).
+func fld(v reflect.Value, i int) reflect.Value {
+	f := v.Field(i)
+	if !f.CanSet() && f.CanAddr() {
+		return reflect.NewAt(f.Type(), unsafe.Pointer(f.UnsafeAddr())).Elem()
+	}
+	return f
+}
+
+// addressable: v itself, or a copy of it that can be addressed (so that fld reaches unexported fields)
+func addressable(v reflect.Value) reflect.Value {
+	if v.CanAddr() {
+		return v
+	}
+	nv := reflect.New(v.Type()).Elem()
+	nv.Set(v)
+	return nv
+}
 
 type strImpl string
 
@@ -87,8 +108,11 @@ func fill(r *rng, v reflect.Value) {
 		v.SetString(fmt.Sprintf("s%d", r.n(1000)))
 	case reflect.Struct:
 		for i := 0; i < v.NumField(); i++ {
-			if v.Field(i).CanSet() {
-				fill(r, v.Field(i))
+			if v.Type().Field(i).Name == "_" {
+				continue // no Go program can give a blank field a value: it stays zero
+			}
+			if f := fld(v, i); f.CanSet() {
+				fill(r, f)
 			}
 		}
 	case reflect.Slice:
@@ -149,10 +173,11 @@ func dump(b *strings.Builder, v reflect.Value, withCap bool) {
 	switch v.Kind() {
 	case reflect.Struct:
 		b.WriteString("{")
+		v = addressable(v)
 		for i := 0; i < v.NumField(); i++ {
 			b.WriteString(v.Type().Field(i).Name)
 			b.WriteString(":")
-			dump(b, v.Field(i), withCap)
+			dump(b, fld(v, i), withCap)
 			b.WriteString(";")
 		}
 		b.WriteString("}")
@@ -275,7 +300,7 @@ func mutateS(v reflect.Value, depth int, containers *int, maxDepth *int, shared 
 	case reflect.Struct:
 		on := originName(v.Type())
 		for i := 0; i < v.NumField(); i++ {
-			mutateS(v.Field(i), depth+1, containers, maxDepth, shared || tparamFields[on+"."+v.Type().Field(i).Name], pass)
+			mutateS(fld(v, i), depth+1, containers, maxDepth, shared || tparamFields[on+"."+v.Type().Field(i).Name], pass)
 		}
 	case reflect.Slice:
 		*containers++
